@@ -138,11 +138,16 @@ BODIES = {
     "quit": [("MKD", "q1"), ("RNFR", "q1"), ("QUIT", ""), ("RNTO", "q2"), ("PWD", "")],
     "badrest": [("PASV", ""), (C, ""), ("REST", "٣"), ("PWD", "")],
     "epsvarg": [("MKD", "k"), ("EPSV", "1"), ("PWD", "")],
+    "abor": [("PASV", ""), (C, ""), ("ABOR", ""), ("PWD", ""), ("RETR", "f"), ("ABOR", ""), ("REST", "9"), ("ABOR", ""), (C, ""), ("RETR", "f")],
+    "selfabort": [("PASV", ""), (C, ""), {"k": "send", "verb": "RETR", "arg": "big", "mode": "hold"}, ("ABOR", ""), {"k": "collect"}, ("PWD", ""), (C, ""),
+                  {"k": "send", "verb": "STOR", "arg": "part", "payload": "0123456789abcdef", "mode": "split", "marg": 5}, ("ABOR", ""), {"k": "collect"}, ("MLST", "part"), ("ABOR", "")],
     "abs": [("MKD", "/{d}/e/abs"), ("RNFR", "/{d}/e/abs"), ("RNTO", "/{d}/sub/y/abs2"), ("CWD", "/{d}/sub/y/abs2"), ("PWD", ""), ("CDUP", ""), ("RMD", "abs2"), ("DELE", "/{d}/sub/x")],
 }
 # bodies that make sense before "CWD /{d}" (absolute paths only)
 ABS_BODIES = ("abs",)
-TRANSFER_BODIES = ("store", "rest", "rest2", "type", "append", "nodata")
+TRANSFER_BODIES = ("store", "rest", "rest2", "type", "append", "nodata", "abor")
+INTRUDERS = ("selfabort", "abor", "nodata", "store", "quit", "badrest", "relogin", "rest")
+WORKER_OPS = ("_open", "read", "write", "seek", "close", "stat", "exists", "is_file")
 
 
 def fmt(x, d):
@@ -159,6 +164,12 @@ def make_script(login, body, d, home=False):
     ev += BODIES[body]
     out = []
     for e in ev:
+        if isinstance(e, dict):
+            a = dict(e)
+            if "arg" in a:
+                a["arg"] = fmt(a["arg"], d)
+            out.append(a)
+            continue
         verb, arg = e[0], fmt(e[1], d)
         if verb == C:
             out.append({"k": "conn"})
@@ -317,8 +328,11 @@ class MSession(ftpsim.Session):
     async def do(self, atom):
         k = atom["k"]
         if k == "cmd":
-            await self.send(atom)
-            await self.collect()
+            if self.inflight is not None and self.inflight[1] is not None:
+                await self.side_cmd(atom)  # a command (ABOR) while the previous one is still in flight
+            else:
+                await self.send(atom)
+                await self.collect()
         elif k == "send":
             await self.send(atom)
         elif k == "collect":
@@ -334,6 +348,17 @@ class MSession(ftpsim.Session):
         rec = {"verb": verb, "arg": arg, "codes": [], "lines": [], "bytes": None, "listing": None, "ended": False}
         self.records.append(rec)
         return rec
+
+    async def side_cmd(self, atom):
+        rec = self.new_record(atom["verb"], atom.get("arg", ""))
+        if self.gone():
+            rec["ended"] = True
+            return
+        arg = atom.get("arg", "")
+        self.raw.writer.write((atom["verb"] if arg == "" else atom["verb"] + " " + arg).encode("utf-8") + CRLF)
+        await self.net.settle()
+        self.take(rec)
+        rec["ended"] = self.raw.eof
 
     async def connect_data(self):
         rec = self.new_record(C, "")
@@ -376,6 +401,12 @@ class MSession(ftpsim.Session):
         if mode in ("hold", "split", "gate"):
             await self.net.settle()
             self.take(rec)
+            if rec["codes"] and rec["codes"][-1] == "150" and dc is None:
+                # no data connection: the worker waits on wait_future_timeout (a TIMER).  Virtual time is shared by all
+                # sessions, so nobody may be left waiting on a timer while others act: finish now (same in the solo run)
+                await self.collect()
+                self.inflight = (rec, None)
+                return
             if v in ("stor", "appe") and payload is not None and dc is not None and "150" in rec["codes"]:
                 r, w = dc
                 if mode == "split":
@@ -474,6 +505,45 @@ class lowered_watermark:
         simnet.HIGH_WATER, simnet.LOW_WATER = self.old
 
 
+# ---------------------------------------------------------------- dynamic write inventory
+# the declared shared structures of the server object (the same list as Proofs/IsolationFacts.v: shared_ok,
+# registry_ok) + objects whose identity never changes (their internals are shared by design: C10, C11, C15)
+SHARED_ATTRS = ("connections", "throttle_per_user", "available_connections", "available_data_ports")
+PRIM = (int, float, str, bytes, bool, type(None))
+
+
+def _ident(v):
+    if isinstance(v, PRIM):
+        return v
+    if isinstance(v, tuple) and all(isinstance(x, PRIM) for x in v):
+        return v
+    if isinstance(v, dict):
+        return ("dict", id(v), tuple((k if isinstance(k, PRIM) else id(k), x if isinstance(x, PRIM) else id(x)) for k, x in v.items()))
+    if isinstance(v, (list, set, frozenset)):
+        return (type(v).__name__, id(v), tuple(sorted((repr(x) if isinstance(x, PRIM) else str(id(x))) for x in v)))
+    return ("obj", id(v))
+
+
+def server_fingerprint(server):
+    """everything a handler could (wrongly) keep per-session state in, outside the Connection: instance attributes of the
+    server, class-level attributes of Server / Connection, module-level containers of aioftp.server"""
+    import aioftp.server as mod
+
+    out = {}
+    for k, v in vars(server).items():
+        if k not in SHARED_ATTRS:
+            out["self." + k] = _ident(v)
+    for cls in (type(server), mod.Connection, mod.ConnectionConditions, mod.PathConditions, mod.PathPermissions):
+        for k, v in vars(cls).items():
+            if k.startswith("__") or callable(v) or isinstance(v, (staticmethod, classmethod, property)):
+                continue
+            out[cls.__name__ + "." + k] = _ident(v)
+    for k, v in vars(mod).items():
+        if not k.startswith("__") and isinstance(v, (dict, list, set)):
+            out["module." + k] = _ident(v)
+    return out
+
+
 PROBE_KEYS = ("user", "has_user", "logged", "cwd", "rnfr", "rest", "passive", "data", "workers", "type", "lport", "dpeer", "acquired")
 
 
@@ -505,10 +575,18 @@ def run_impl(n, schedule, cfg):
                 assert g == ["220"], g
                 ss.append(s)
             steps = []
+            writes = []
+            fp = server_fingerprint(server)
             for i, atom in schedule:
                 before = [s.xprobe() for s in ss]
                 await ss[i].do(atom)
                 steps.append((before, [s.xprobe() for s in ss]))
+                fp2 = server_fingerprint(server)
+                if fp2 != fp:
+                    for k in sorted(set(fp) | set(fp2)):
+                        if fp.get(k) != fp2.get(k):
+                            writes.append((k, i, atom.get("verb", atom["k"])))
+                    fp = fp2
             # a schedule may end with commands in flight: finish them (same in the solo run)
             for s in ss:
                 if s.inflight is not None:
@@ -522,6 +600,7 @@ def run_impl(n, schedule, cfg):
                 own=own,
                 tree=tree,
                 log=list(gate.log),
+                writes=writes,
             )
 
         with lowered_watermark():
@@ -530,6 +609,23 @@ def run_impl(n, schedule, cfg):
     finally:
         if tmp:
             shutil.rmtree(tmp, ignore_errors=True)
+
+
+def tree_diff(a, b, pre=""):
+    """paths where two canonical trees differ"""
+    if isinstance(a, dict) and isinstance(b, dict):
+        out = []
+        for k in sorted(set(a) | set(b)):
+            if k not in a:
+                out.append(f"{pre}/{k}: only in second")
+            elif k not in b:
+                out.append(f"{pre}/{k}: only in first")
+            else:
+                out += tree_diff(a[k], b[k], pre + "/" + k)
+        return out
+    if a != b:
+        return [f"{pre}: {str(a)[:40]!r} vs {str(b)[:40]!r}"]
+    return []
 
 
 def project(schedule, i):
@@ -600,8 +696,7 @@ def oracle(n, dirs, schedule, cfg, res, solos):
             return [("outside-hypothesis", f"solo run of session {i} changes the root", {})]
         want[dirs[i]] = st[dirs[i]]
     if res["tree"] != ftpsim.canon_tree(want):
-        diff = [name for name in set(want) | set(res["tree"]) if res["tree"].get(name) != want.get(name)]
-        bad.append(("c17-tree-not-union-of-solo-effects", f"differs under {sorted(diff)}", {}))
+        bad.append(("c17-tree-not-union-of-solo-effects", f"(interleaved vs union of solo effects) {tree_diff(res['tree'], ftpsim.canon_tree(want))[:6]}", {}))
     # O3 locality, O4 ownership
     unsettled = [False] * n  # a command line is on the wire and its session has not collected the outcome yet
     for (i, atom), (before, after) in zip(schedule, res["steps"]):
@@ -941,6 +1036,31 @@ def gen_jobs(rng, thorough, budget=None):
                 fam += "-nested"
         s = window_schedule(sa, e, mode, sb2, j0, j1, rng=rng if rng.random() < 0.5 else None, nested=nested, order=rng.randrange(2))
         jobs.append((fam, 2, [da, db], [project_atoms(s, 0), project_atoms(s, 1)], s, cfg))
+    # (3) every transfer of every body suspended with its WORKER alive (each way) x an intruder script run entirely inside
+    # the window by the same / another user: ABOR, transfers without data connection, listener renewal, QUIT, teardown
+    tw = []
+    for ba in TRANSFER_BODIES:
+        sa = script("u", ba, "a")
+        for e, atom in enumerate(sa):
+            if atom["k"] == "cmd" and atom["verb"].lower() in XFER:
+                for mode in modes_for(atom):
+                    if mode[0] in ("hold", "split") or mode[1][0] in WORKER_OPS:
+                        tw.append((ba, e, mode))
+    combos = [(w, ib, same) for w in tw for ib in INTRUDERS for same in (True, False)]
+    if not thorough:
+        combos = [(w, INTRUDERS[k % len(INTRUDERS)], k % 2 == 0) for k, w in enumerate(tw)]
+        if budget:
+            combos += [(w, INTRUDERS[(k + 3) % len(INTRUDERS)], k % 2 == 1) for k, w in enumerate(tw)]
+    for (ba, e, mode), ib, same in combos:
+        da, db = rng.sample(DIRS, 2)
+        la = rng.choice(["u", "v"])
+        lb = la if same else ("v" if la == "u" else "u")
+        sa, sb = script(la, ba, da), script(lb, ib, db)
+        if ib == "relogin" and same:
+            sb = script(la, ib, db)
+        j0 = rng.choice([0, len(LOGIN[lb]) + 1])
+        s = window_schedule(sa, e, mode, sb, j0, len(sb), rng=None)
+        jobs.append(("intruder-" + ib + ("-same-user" if same else "-other-user"), 2, [da, db], [project_atoms(s, 0), project_atoms(s, 1)], s, {"backend": "memory"}))
     # the victim itself is torn down half-way (its partial effects stay its own)
     for _ in range(300 if thorough else 24):
         ba, la, e, mode = rng.choice(wins)
@@ -969,6 +1089,12 @@ def check_case(ctx, fam, n, dirs, schedule, cfg, mo=None, verbose=False):
     solos = [solo(scripts[i], dirs[i], cfg) for i in range(n)]
     rep = {"family": fam, "n": n, "dirs": dirs, "cfg": cfg, "schedule": [[i, a] for i, a in schedule]}
     clean = True
+    for name, i, verb in res["writes"]:
+        # not a property violation by itself: the closed obligation C17_source_obligations (static write-site inventory) has a
+        # dynamic twin - a session step changed something outside its Connection and outside the declared shared structures
+        if name not in ctx.extra.setdefault("dynamic_writes", {}):
+            ctx.extra["dynamic_writes"][name] = f"{verb} of session {i}"
+            ctx.obligation_broken("dynamic-write-inventory", f"a step ({verb}) of a session changed {name}: per-session state outside the Connection / the declared shared structures {SHARED_ATTRS}")
     bad = oracle(n, dirs, schedule, cfg, res, solos)
     if bad and bad[0][0] == "outside-hypothesis":
         ctx.count("outside_hypothesis")
@@ -1016,7 +1142,7 @@ def check_case(ctx, fam, n, dirs, schedule, cfg, mo=None, verbose=False):
     if not any(skip):
         m_tree = ftpsim.canon_tree(ftpsim.sx_to_tree(trace[0]))
         if m_tree != res["tree"]:
-            ctx.disagree("multi-tree", dict(rep, key="c17-model-tree"), str(m_tree)[:400], str(res["tree"])[:400])
+            ctx.disagree("multi-tree", dict(rep, key="c17-model-tree"), "model vs impl: " + str(tree_diff(m_tree, res["tree"])[:6]), "")
             clean = False
     # M1 step by step (command granularity only)
     if command_granular(schedule) and clean:
@@ -1067,6 +1193,7 @@ def correspondence(ctx, budget=None):
         "AsyncPathIO on a subset, block sizes 8..256, optional port pool. Non-trivial = distinct (schedule, configuration)."
     )
     jobs = gen_jobs(rng, thorough, budget)
+    ctx.extra.setdefault("dynamic_writes", {})
     model_in, spans = [], []
     for fam, n, dirs, scripts, sched, cfg in jobs:
         ins = model_inputs(n, dirs, sched)
